@@ -112,6 +112,8 @@ def is_instance(v: AV, cls: str) -> bool:
         'EmptyCell': k == 'blank', 'dict': k == 'dict', 'object': True, 'NoneType': k == 'none',
     }
     if cls not in table:
+        if k == 'obj' and isinstance(v.val, tuple):
+            return v.val[2] == cls
         raise Unknown(f'isinstance(..., {cls})')
     return table[cls]
 
@@ -138,7 +140,7 @@ def truth(v: AV) -> bool:
         if v.items is None:
             raise Unknown('truth of a list of unknown length')
         return bool(v.items)
-    if k in ('date', 'datetime', 'func', 'other'):
+    if k in ('date', 'datetime', 'func', 'other', 'obj', 'regex'):
         return True
     raise Unknown(f'truth of {k}')
 
@@ -190,6 +192,8 @@ class Evaluator:
         self.max_depth = max_depth
         self.depth = 0
         self.trace: list = []
+        self.heap: dict = {}              # object id -> {'cls': name, 'attrs': {name: AV}}
+        self.functions: dict = {}         # module-level functions callable by bare name: name -> ast.FunctionDef
 
     # ---- functions ---------------------------------------------------------------------------------
     def call_method(self, name: str, args: list, self_av: AV | None = None) -> AV:
@@ -272,6 +276,21 @@ class Evaluator:
                         all(isinstance(e, ast.Name) for e in t.elts):
                     for e, x in zip(t.elts, v.items):
                         env[e.id] = x
+                elif isinstance(t, ast.Attribute):
+                    base = self.ev(t.value, env)
+                    if base.kind != 'obj':
+                        raise Unknown('attribute store on a value that is not a modelled object')
+                    self.obj_attrs(base)[t.attr] = v
+                elif isinstance(t, ast.Subscript):
+                    base = self.ev(t.value, env)
+                    key = self.ev(t.slice, env)
+                    if base.kind == 'obj' and 'items' in self.obj_attrs(base):          # a modelled mutable dict / list object
+                        store = self.obj_attrs(base)['items']
+                        self.obj_attrs(base)['items'] = AV(store.kind, items=tuple(
+                            kv for kv in (store.items or ()) if not self.eq(kv.items[0], key)) + (AV('tuple', items=(key, v)),)) \
+                            if store.kind == 'dict' else store
+                    else:
+                        raise Unknown('subscript store')
                 else:
                     raise Unknown('assignment target')
             return
@@ -395,6 +414,41 @@ class Evaluator:
             if is_gen:
                 self._yields.pop()
 
+    def new_obj(self, cls: str, attrs: dict) -> AV:
+        oid = len(self.heap) + 1
+        self.heap[oid] = {'cls': cls, 'attrs': dict(attrs)}
+        return AV('obj', val=('ref', oid, cls))
+
+    def obj_attrs(self, v: AV) -> dict:
+        return self.heap[v.val[1]]['attrs']
+
+    def call_function(self, fn: ast.FunctionDef, args: list, kwargs: dict | None = None) -> AV:
+        """a module-level function (no self)"""
+        if self.depth >= self.max_depth:
+            raise Unknown(f'inlining depth exceeded at {fn.name}')
+        params = [a.arg for a in fn.args.posonlyargs + fn.args.args]
+        env = {}
+        defaults = fn.args.defaults
+        kwargs = kwargs or {}
+        for i, p in enumerate(params):
+            if i < len(args):
+                env[p] = args[i]
+            elif p in kwargs:
+                env[p] = kwargs[p]
+            else:
+                di = i - (len(params) - len(defaults))
+                if di < 0:
+                    raise AbsRaise('TypeError', f'{fn.name}() missing {p}')
+                env[p] = self.ev(defaults[di], {})
+        self.depth += 1
+        try:
+            self.exec_block(fn.body, env)
+            return AV('none')
+        except _Ret as r:
+            return r.v
+        finally:
+            self.depth -= 1
+
     def call_value(self, f: AV, args: list) -> AV:
         if f.kind == 'func' and isinstance(f.val, tuple):
             if f.val[0] == 'closure':
@@ -496,6 +550,11 @@ class Evaluator:
                 return AV('other', val=('class', {'datetime.date': 'date', 'datetime.datetime': 'datetime',
                                                   'self.EmptyCell': 'EmptyCell', 'self.__class__': 'EmptyCell'}.get(txt, txt)))
             v = self.ev(base, env)
+            if v.kind == 'obj':
+                at = self.obj_attrs(v)
+                if node.attr in at:
+                    return at[node.attr]
+                raise AbsRaise('AttributeError', f'{v.val[2]} has no attribute {node.attr}')
             if v.kind in ('date', 'datetime') and node.attr in ('year', 'month', 'day'):
                 if isinstance(v.val, tuple) and v.val and v.val[0] == 'ymd':
                     return const_av(v.val[1 + ('year', 'month', 'day').index(node.attr)])
@@ -604,6 +663,8 @@ class Evaluator:
                 env[node.id].val[0] in ('class', 'name'):
             nm = env[node.id].val[1]
             return [table.get(nm, nm)]
+        if isinstance(node, ast.Name) and node.id[:1].isupper():
+            return [node.id]                      # a class of the repository: matched against modelled objects by name
         raise Unknown(f'class expression {txt}')
 
     def call(self, node: ast.Call, env) -> AV:
@@ -625,6 +686,19 @@ class Evaluator:
             if hook is None:
                 raise Unknown(f'call of the function value {name}')
             return hook(self, [self.ev(a, env) for a in node.args])
+        if name is not None and name not in env and name in self.functions:
+            return self.call_function(self.functions[name], [self.ev(a, env) for a in node.args],
+                                      {k.arg: self.ev(k.value, env) for k in node.keywords if k.arg})
+        if name == 'column_index_from_string' and len(node.args) == 1:
+            v = self.ev(node.args[0], env)
+            if not isinstance(v.val, str) or not v.val.isalpha() or not v.val:
+                raise (AbsRaise('ValueError', 'not a column') if isinstance(v.val, str) else Unknown('column letters without a carrier'))
+            n_ = 0
+            for ch in v.val.upper():
+                n_ = n_ * 26 + (ord(ch) - 64)
+            if not (1 <= n_ <= 18278):
+                raise AbsRaise('ValueError', 'column out of range')
+            return const_av(n_)
         if name == 'isinstance':
             v = self.ev(node.args[0], env)
             return const_av(any(is_instance(v, c) for c in self._class_names(node.args[1], env)))
@@ -632,7 +706,13 @@ class Evaluator:
             v = self.ev(node.args[0], env)
             return AV('other', val=('class', type_name(v)))
         if name == 'int':
-            return to_int(self.ev(node.args[0], env))
+            v0 = self.ev(node.args[0], env)
+            if v0.kind == 'str' and isinstance(v0.val, str):
+                try:
+                    return const_av(int(v0.val))
+                except ValueError:
+                    raise AbsRaise('ValueError', f'int({v0.val!r})')
+            return to_int(v0)
         if name == 'float':
             return to_float(self.ev(node.args[0], env))
         if name == 'str':
@@ -775,6 +855,16 @@ class Evaluator:
                 m_ = getattr(_re, txt[3:])(node.args[0].value, subj.val, flags)
                 return AV('other', val=('match', txt)) if m_ else AV('none')
             recv = self.ev(f.value, env)
+            if recv.kind == 'obj':
+                at = self.obj_attrs(recv)
+                if f.attr in at and at[f.attr].kind == 'func':
+                    return self.call_value(at[f.attr], [self.ev(a, env) for a in node.args])
+                raise AbsRaise('AttributeError', f'{recv.val[2]} has no method {f.attr}')
+            if recv.kind == 'str' and isinstance(recv.val, str) and f.attr in ('isdigit', 'isalpha', 'isupper', 'islower', 'isnumeric') \
+                    and not node.args:
+                return const_av(getattr(recv.val, f.attr)())
+            if recv.kind == 'str' and isinstance(recv.val, str) and f.attr in ('upper', 'lower', 'strip', 'lstrip', 'rstrip') and not node.args:
+                return const_av(getattr(recv.val, f.attr)())
             if recv.kind == 'regex' and f.attr in ('match', 'fullmatch', 'search') and node.args:
                 subj = self.ev(node.args[0], env)
                 if subj.kind != 'str':
